@@ -109,7 +109,7 @@ def _atom_value(a, env):
     raise Undecided('atom %r' % (a,))
 
 
-GRID = {'u': [Fr(0), Fr(1)], 'r': [Fr(0), Fr(1)],'s': [Fr(1, 2), Fr(2), Fr(-3)], 'q': [Fr(1, 2), Fr(2)],
+GRID = {'u': [Fr(0), Fr(1)], 'r': [Fr(0), Fr(1)],'s': [Fr(1, 2), Fr(2), Fr(-3)], 'q': [Fr(1, 2), Fr(2), Fr(-2)],
         'a_f': [Fr(1), Fr(3)], 'a_g': [Fr(1), Fr(2)], 'w': [Fr(1), Fr(2)],
         'm': [Fr(1), Fr(3)]}
 
